@@ -33,6 +33,7 @@ type scenario struct {
 	Ctx       string     `json:"ctx"` // background | todo | cancel | value | custom | deadline
 	Deadline  int        `json:"ctx_deadline_ms,omitempty"`
 	Timeout   int        `json:"timeout_ms,omitempty"` // Dialer.Timeout, 0 = none
+	TimeoutNs int64      `json:"timeout_ns,omitempty"` // when non-zero it is Dialer.Timeout instead: a budget that has run out (negative) or 1 ns
 	DialDelay int        `json:"netdial_delay_ms,omitempty"`
 	DialFail  bool       `json:"netdial_fails,omitempty"`  // NetDial reports "connection refused" after its delay
 	Entry     string     `json:"entry,omitempty"`          // "" = Dialer.Dial on a value | package = the dialer is assigned to ws.DefaultDialer and ws.Dial is called
@@ -85,6 +86,14 @@ func (c customCtx) Value(interface{}) interface{} {
 // errCause is the cause the harness gives to the *Cause context kinds. Dial
 // has to report ctx.Err(), never this value.
 var errCause = errors.New("harness: application-level cancellation cause")
+
+// timeout is the value given to Dialer.Timeout.
+func (s *scenario) timeout() time.Duration {
+	if s.TimeoutNs != 0 {
+		return time.Duration(s.TimeoutNs)
+	}
+	return ms(s.Timeout)
+}
 
 func (s *scenario) hasDeadline() bool { return strings.HasPrefix(s.Ctx, "deadline") }
 
@@ -220,7 +229,7 @@ func bubble(sc *scenario, out *outcome) {
 	}
 
 	d := ws.Dialer{
-		Timeout:         ms(sc.Timeout),
+		Timeout:         sc.timeout(),
 		ReadBufferSize:  sc.RBuf,
 		WriteBufferSize: sc.WBuf,
 		NetDial: func(dctx context.Context, network, addr string) (net.Conn, error) {
@@ -456,8 +465,13 @@ func judge(sc *scenario, o *outcome) (v verdict) {
 			}
 		}
 	}
-	if sc.Timeout > 0 {
-		limit(ms(sc.Timeout), "timeout")
+	if d := sc.timeout(); d > 0 {
+		limit(d, "timeout")
+	} else if d < 0 {
+		// A budget that has already run out ("Timeout: time.Until(deadline)"):
+		// the dial timeout has elapsed when Dial is called, so Dial returns
+		// without any virtual time passing.
+		limit(0, "timeout-already-elapsed")
 	}
 
 	if o.AtReturn.Runaway > 0 {
@@ -502,6 +516,11 @@ func judge(sc *scenario, o *outcome) (v verdict) {
 	}
 	if o.Rescued {
 		v.Open = "unbounded-wait" // no context end, no timeout: waiting on the peer is legal
+	}
+
+	if sc.timeout() < 0 && o.Err == nil {
+		v.Violation = fmt.Sprintf("Dialer.Timeout = %v has elapsed before Dial was called, yet Dial returned a nil error", sc.timeout())
+		return
 	}
 
 	// nil + clean conn, or error + closed conn.
